@@ -157,7 +157,7 @@ class ThermochemRawData(ThermochemBase):
 
         if T_a >= max_T:
             if T_b >= max_T:
-                return rH + self.max_ND_Cp*(T_b - T_a)/T
+                return (rH + self.max_ND_Cp*(T_b - T_a))/T
             rH += self.max_ND_Cp*(max_T - T_a)
             T_a = max_T
         elif T_b >= max_T:
